@@ -39,8 +39,14 @@ fn opt_field(rng: &mut Rng, m: &mut Map<String, Value>, key: &str, v: Option<u64
 /// returns (instance, swarm summary)
 pub fn gen_instance(rng: &mut Rng, o: &GenOpts) -> (Value, Value) {
     let pfx = &o.id_prefix;
-    let max_segments = if o.max_segments == 0 { 12 } else { o.max_segments };
 
+
+    let mut max_segments = if o.max_segments == 0 { 12 } else { o.max_segments };
+    // a minority of larger instances (more vehicles per type, longer cycles, bigger neighbourhoods)
+    let large = o.max_segments >= 12 && rng.chance(1, 12);
+    if large {
+        max_segments = 18;
+    }
     // ---- swarm configuration ------------------------------------------------------------
     let n_types = *rng.pick(&[1usize, 1, 2, 2, 3]);
     let n_locs = rng.range(2, 5) as usize;
@@ -67,7 +73,7 @@ pub fn gen_instance(rng: &mut Rng, o: &GenOpts) -> (Value, Value) {
         let w: [u32; 4] = if o.risky { [25, 15, 45, 15] } else { [15, 35, 45, 5] };
         rng.weighted(&w)
     };
-    let demand_max = if o.risky { 4 } else { *rng.pick(&[1u64, 2, 2, 3, 4]) };
+    let demand_max = if large { *rng.pick(&[1u64, 2, 2]) } else if o.risky { 4 } else { *rng.pick(&[1u64, 2, 2, 3, 4]) };
     let two_days = rng.chance(1, 8);
     let type_without_routes = n_types >= 2 && rng.chance(1, 12);
 
@@ -218,7 +224,7 @@ pub fn gen_instance(rng: &mut Rng, o: &GenOpts) -> (Value, Value) {
     // ---- departures -----------------------------------------------------------------------
     let mut departures = vec![];
     let mut n_segments = 0usize;
-    let n_dep = rng.range(1, 7) as usize;
+    let n_dep = if large { rng.range(6, 14) as usize } else { rng.range(1, 7) as usize };
     let day_span: i64 = if two_days { 40 * 3600 } else { 16 * 3600 };
     let mut earliest = i64::MAX;
     let mut latest = i64::MIN;
@@ -288,7 +294,22 @@ pub fn gen_instance(rng: &mut Rng, o: &GenOpts) -> (Value, Value) {
 
     // ---- maintenance slots ----------------------------------------------------------------
     let mut slots = vec![];
+    // bias: a pair of slots that one vehicle can visit in the same tour (one before the first
+    // departure, one after the last arrival)
+    let slot_pair = n_slots >= 2 && rng.chance(1, 3);
     for m in 0..n_slots {
+        if slot_pair && m < 2 {
+            let dur = if grid >= 300 { rng.range(2, 6) * grid } else { rng.range(20, 90) * 60 };
+            let start = if m == 0 { earliest - dur - rng.range(1, 8) * grid.max(300) } else { latest + rng.range(1, 8) * grid.max(300) };
+            slots.push(json!({
+                "id": format!("{}ms{}", pfx, m),
+                "location": loc_ids[rng.usize(n_locs)],
+                "start": fmt_time(start),
+                "end": fmt_time(start + dur),
+                "trackCount": *rng.pick(&[1u64, 2, 2, 3]),
+            }));
+            continue;
+        }
         let start = if rng.chance(1, 2) {
             // near the activities
             earliest - 6 * 3600 + rng.range(0, ((latest - earliest) + 10 * 3600) / grid) * grid
@@ -313,7 +334,8 @@ pub fn gen_instance(rng: &mut Rng, o: &GenOpts) -> (Value, Value) {
             let n_dep = rng.range(1, n_locs as i64 + 1) as usize;
             let mut ds = vec![];
             for i in 0..n_dep {
-                let loc = if i < n_locs && rng.chance(3, 4) { i } else { rng.usize(n_locs) };
+                // several depots at one location are valid (and not rare in practice: yards)
+                let loc = if i < n_locs && rng.chance(2, 3) { i } else { rng.usize(n_locs) };
                 let mut allowed = vec![];
                 let mut sum_caps = 0u64;
                 let mut any_unbounded = false;
@@ -474,7 +496,7 @@ pub fn gen_instance(rng: &mut Rng, o: &GenOpts) -> (Value, Value) {
         "metric": metric, "limitMode": limit_mode_s,
         "depots": depots_mode_s,
         "maintenance": maint_mode_s,
-        "demandMax": demand_max, "twoDays": two_days, "typeWithoutRoutes": type_without_routes,
+        "demandMax": demand_max, "twoDays": two_days, "typeWithoutRoutes": type_without_routes, "large": large,
     });
     (Value::Object(inst), summary)
 }
